@@ -452,6 +452,9 @@ pub fn run(cx: &mut Cx) {
     ] {
         cx.ev.require(&format!("family/{fam}"));
     }
+    for k in ["stream-route/new", "stream-route/default", "stream-route/clone-midway", "deliver/write", "deliver/write_all", "deliver/write_vectored", "deliver/write+flush", "error-text/missing-variable"] {
+        cx.ev.require(k);
+    }
     for k in ["prints_between_writes", "cut/in_multibyte_char", "cut/in_separator", "malformed_cut/in_multibyte_char", "malformed_cut/in_separator", "writes/zero_length"] {
         cx.ev.require(k);
     }
